@@ -66,7 +66,8 @@ def main() -> None:
     for p in props:
         pid = p['id']
         mod = os.path.join(HERE, 'checks', pid.lower() + '.py')
-        if not os.path.exists(mod) or pid in pending:
+        ready = open(os.path.join(HERE, 'tools', 'ready.txt')).read().split()
+        if not os.path.exists(mod) or pid in pending or pid not in ready:
             na.append({'property_id': pid, 'reason': pending.get(pid, 'check not built yet in this session (work in progress; the design is in DESIGN.md section 2)')})
             continue
         level, text, tech = META[pid]
